@@ -963,6 +963,8 @@ pub struct CStats {
     pub payouts_auth: u64,
     pub payouts_perm: u64,
     pub payouts_admin_frozen: u64,
+    pub receivership_probes: u64,
+    pub receivership_claims_committed_empty: u64,
     pub rejected_cells: Vec<(&'static str, u8, u8)>,
     pub ok_ops: Vec<&'static str>,
     pub fail_ops: Vec<&'static str>,
@@ -1628,6 +1630,82 @@ pub fn run_c(c: &CCase, st: &mut CStats) -> Result<(), Fail> {
             return fail("emissions:vault-underfunded", format!("after `{name}` the emissions vault holds {} < remaining + outstanding = {}", vault1, q_str(&t1)));
         }
     }
+    probe_receivership_claim(&cw, st)?;
+    Ok(())
+}
+
+/// What-if probe at the end of a history ("can be paid only to the account authority's chosen destination" must also
+/// hold while a third party holds the account in receivership): on a clone of the world every indebted account is made
+/// liquidatable (its collateral price is crashed), another user opens a receivership bracket on it and, inside the
+/// bracket, signs `withdraw_emissions` (and, in a second attempt, `withdraw_emissions_permissionless` towards its own
+/// ATA) for the victim's rewards. If such a transaction commits and reward tokens left the vault for the third party's
+/// account, the rewards were paid to somebody the authority never chose.
+fn probe_receivership_claim(cw: &CWorld, st: &mut CStats) -> Result<(), Fail> {
+    if !cw.setup_done {
+        return Ok(());
+    }
+    let (eb, cb) = (0usize, 1usize);
+    let nu = cw.w.users.len();
+    if nu < 2 {
+        return Ok(());
+    }
+    for ui in 0..nu {
+        let us = cw.w.users[ui].clone();
+        let m = us.accts[0];
+        let Some(a) = read_macct(&cw.w.vm, &m) else { continue };
+        if a.account_flags & (ACCOUNT_DISABLED | ACCOUNT_FROZEN) != 0 {
+            continue;
+        }
+        let indebted = a.lending_account.balances.iter().any(|b| b.active != 0 && q_w(b.liability_shares) >= q_one());
+        if !indebted {
+            continue;
+        }
+        let li = (ui + 1) % nu;
+        let l = cw.w.users[li].clone();
+        let mut w = cw.w.clone();
+        if w.set_price(cb, 1, 0, 1, 0).is_err() {
+            continue;
+        }
+        w.refresh_oracles();
+        if w.vm.get(&World::liq_record_key(&m)).is_none() && w.vm.exec(&w.ix_init_liq_record(m, l.auth)).is_err() {
+            continue;
+        }
+        let risk = w.risk_metas(&m, None, None);
+        // positive control: the empty bracket commits, i.e. the account really can be taken into receivership
+        {
+            let mut probe = w.vm.clone();
+            if !probe.exec_tx(&[w.ix_start_liquidation(m, l.auth), w.ix_end_liquidation(m, l.auth, risk.clone())]).ok {
+                continue;
+            }
+        }
+        st.receivership_probes += 1;
+        let dests = [cw.em_tokens[li], ata(&l.auth, &cw.em.mint, &cw.em.tp)];
+        let attempts: Vec<(&str, Instruction, Pubkey)> = vec![
+            ("withdraw_emissions signed by the liquidator", ix_withdraw_emissions(&w, eb, &cw.em, m, l.auth, dests[0]), dests[0]),
+            ("withdraw_emissions_permissionless into the liquidator's ATA", ix_withdraw_emissions_permissionless(&w, eb, &cw.em, m, dests[1]), dests[1]),
+        ];
+        for (what, ix, dst) in attempts {
+            let mut vm = w.vm.clone();
+            let configured = a.emissions_destination_account;
+            if dst == ata(&configured, &cw.em.mint, &cw.em.tp) {
+                continue; // the authority itself chose this wallet
+            }
+            let d0 = token_amount(vm.data(&dst));
+            let v0 = token_amount(vm.data(&cw.em.vault));
+            let r = vm.exec_tx(&[w.ix_start_liquidation(m, l.auth), ix, w.ix_end_liquidation(m, l.auth, risk.clone())]);
+            if r.ok {
+                let d1 = token_amount(vm.data(&dst));
+                let v1 = token_amount(vm.data(&cw.em.vault));
+                if d1 > d0 || v1 < v0 {
+                    return fail(
+                        "emissions:paid-to-third-party-in-receivership",
+                        format!("[start_liquidation, {what}, end_liquidation] on account {m} signed only by {} committed: the emissions vault went {v0} -> {v1}, the third party's account {dst} {d0} -> {d1}", l.auth),
+                    );
+                }
+                st.receivership_claims_committed_empty += 1;
+            }
+        }
+    }
     Ok(())
 }
 
@@ -1736,6 +1814,8 @@ fn run_part_c(ctx: &Ctx, cases: u32) -> Report {
                 rep.label_n("C:payout-authority", st.payouts_auth);
                 rep.label_n("C:payout-permissionless", st.payouts_perm);
                 rep.label_n("C:payout-admin-on-frozen", st.payouts_admin_frozen);
+                rep.label_n("C:receivership-claim-probes", st.receivership_probes);
+                rep.label_n("C:receivership-claim-committed-without-payout", st.receivership_claims_committed_empty);
                 rep.label_n("C:funding-steps", st.funding_ok);
                 rep.set_max("C_max_relative_claim_error", st.max_rel_err);
                 for o in &st.ok_ops {
